@@ -44,6 +44,7 @@ func main() {
 	walks := fs.Int("walks", 0, "random walks after the DFS")
 	depth := fs.Int("depth", 8, "random walk depth")
 	seed := fs.Int64("seed", 1, "seed for random walks")
+	hdr := fs.String("hdr", "", "TLC output holding header lines (trace recorders)")
 	repeat := fs.Int("repeat", 2, "in-process repetitions of every history (replicas)")
 	fs.Parse(os.Args[2:])
 	_ = time.Second
@@ -146,6 +147,17 @@ func main() {
 		st, err := distributor.RunTrace(*edges, *walks, *seed)
 		if err != nil {
 			fmt.Fprintln(os.Stderr, "trace-distributor:", err)
+			os.Exit(2)
+		}
+		b, _ := json.MarshalIndent(st, "", " ")
+		if err := os.WriteFile(*out, b, 0o644); err != nil {
+			fmt.Fprintln(os.Stderr, err)
+			os.Exit(2)
+		}
+	case "trace-vesting":
+		st, err := vesting.RunTrace(*hdr, *edges, *walks, *seed)
+		if err != nil {
+			fmt.Fprintln(os.Stderr, "trace-vesting:", err)
 			os.Exit(2)
 		}
 		b, _ := json.MarshalIndent(st, "", " ")
